@@ -1,6 +1,7 @@
 package rules
 
 import (
+	"strings"
 	"go/types"
 
 	"kmcheck/internal/km"
@@ -68,9 +69,38 @@ func scanRisks(fn *ssa.Function) []riskSite {
 			}
 		case *ssa.Panic:
 			out = append(out, riskSite{fn, in, "panic", km.ValStr(x.X)})
+		case *ssa.Call:
+			// library calls that index their argument without a length test of their own
+			if _, _, ok := libMinLen(x); ok {
+				out = append(out, riskSite{fn, in, "libcall", km.ValStr(x)})
+			}
 		}
 	})
 	return out
+}
+
+// libMinLen: call is a standard-library function that panics when its byte-slice operand is shorter than n
+// (encoding/binary's fixed-width readers and writers); returns the operand and n.
+func libMinLen(call *ssa.Call) (ssa.Value, int64, bool) {
+	name := km.CalleeFull(call.Common())
+	var n int64
+	switch {
+	case !strings.HasPrefix(name, "(encoding/binary.bigEndian).") && !strings.HasPrefix(name, "(encoding/binary.littleEndian)."):
+		return nil, 0, false
+	case strings.HasSuffix(name, "Uint16"):
+		n = 2
+	case strings.HasSuffix(name, "Uint32"):
+		n = 4
+	case strings.HasSuffix(name, "Uint64"):
+		n = 8
+	default:
+		return nil, 0, false
+	}
+	args := call.Common().Args
+	if len(args) < 2 {
+		return nil, 0, false
+	}
+	return args[1], n, true
 }
 
 func optVal(v ssa.Value) string {
